@@ -7,6 +7,7 @@ package turn
 // kind of inbound message, bursts beyond the queue, read with nothing queued, Close.
 
 import (
+	"sync/atomic"
 	"errors"
 	"fmt"
 	"net"
@@ -577,6 +578,71 @@ func TestVerifH5(t *testing.T) {
 		w.other.Close()
 		synctest.Wait()
 	})
+	// a server that grants extreme lifetimes (0 s, 1 s, 2^32-1 s): the client must not turn a response into a busy loop
+	// (C09: no input makes an endpoint spin) - at most a few refreshes per second of virtual time
+	for _, lt := range []time.Duration{0, time.Second, 4294967295 * time.Second} {
+		synctest.Test(t, func(t *testing.T) {
+			vt.OpSync("trace allocate-lifetime-%d", int64(lt/time.Second))
+			n := newSimNet()
+			srv, _ := n.listenUDP(net.ParseIP("10.0.0.1").To4(), 3478, true)
+			cpc, _ := n.listenUDP(net.ParseIP("10.0.0.2").To4(), 4000, true)
+			var refreshes atomic.Int64
+			go func() {
+				buf := make([]byte, 4096)
+				for {
+					k, from, err := srv.ReadFrom(buf)
+					if err != nil {
+						return
+					}
+					m := &stun.Message{Raw: append([]byte{}, buf[:k]...)}
+					if m.Decode() != nil || m.Type.Class != stun.ClassRequest {
+						continue
+					}
+					tid := stun.NewTransactionIDSetter(m.TransactionID)
+					var r *stun.Message
+					switch {
+					case m.Type.Method == stun.MethodAllocate && !m.Contains(stun.AttrMessageIntegrity):
+						r, _ = stun.Build(tid, stun.NewType(stun.MethodAllocate, stun.ClassErrorResponse), &stun.ErrorCodeAttribute{Code: stun.CodeUnauthorized},
+							stun.NewNonce("nonce0"), stun.NewRealm("pion.ly"))
+					case m.Type.Method == stun.MethodAllocate:
+						r, _ = stun.Build(tid, stun.NewType(stun.MethodAllocate, stun.ClassSuccessResponse), &proto.RelayedAddress{IP: net.IPv4(10, 0, 0, 1), Port: 50000},
+							&proto.Lifetime{Duration: lt}, &stun.XORMappedAddress{IP: net.IPv4(10, 0, 0, 2), Port: 4000})
+					case m.Type.Method == stun.MethodRefresh:
+						if refreshes.Add(1) > 300 { // spinning: stop answering so that virtual time can move on
+							continue
+						}
+						r, _ = stun.Build(tid, stun.NewType(stun.MethodRefresh, stun.ClassSuccessResponse), &proto.Lifetime{Duration: lt})
+					default:
+						continue
+					}
+					_, _ = srv.WriteTo(r.Raw, from)
+				}
+			}()
+			lf := logging.NewDefaultLoggerFactory()
+			lf.DefaultLogLevel = logging.LogLevelDisabled
+			c, err := NewClient(&ClientConfig{STUNServerAddr: "10.0.0.1:3478", TURNServerAddr: "10.0.0.1:3478", Conn: cpc, LoggerFactory: lf,
+				Username: "alice", Password: "pw", Realm: "pion.ly"})
+			if err != nil || c.Listen() != nil {
+				vt.Alarm("h5-setup", "client for the lifetime scenario: %v", err)
+				vt.Obs("ok")
+				return
+			}
+			conn, aerr := c.Allocate()
+			time.Sleep(10 * time.Second)
+			if k := refreshes.Load(); k > 40 {
+				vt.Alarm("client-spins", "after an Allocate success response with LIFETIME=%d s (Allocate err=%v) the client sent %d Refresh requests in 10 s", int64(lt/time.Second), aerr, k)
+			}
+			if conn != nil {
+				_ = conn.Close()
+			}
+			c.Close()
+			_ = cpc.Close()
+			_ = srv.Close()
+			synctest.Wait()
+			vt.Obs("ok")
+		})
+		vt.Flush()
+	}
 	// read deadlines (net.PacketConn): once the deadline has passed EVERY ReadFrom fails with a timeout until the
 	// deadline is moved - not only the call that was blocked when it expired
 	synctest.Test(t, func(t *testing.T) {
